@@ -3,6 +3,7 @@
   Core-only (no Mathlib) so that it can be compiled with `lake build driver`.
 -/
 import NibiruModel
+import Generated.Facts
 
 open Nibiru
 
@@ -13,6 +14,7 @@ structure DriverState where
   tf : TF.State × TF.View := default
   sudo : Sudo.State := default
   devgas : DevGas.State := default
+  logidx : LogIndex.State := {}
 
 def splitArgs (line : String) : List String :=
   (line.trimAscii.toString.splitOn " ").filter (· ≠ "")
@@ -36,6 +38,9 @@ def stepLine (st : DriverState) (line : String) : DriverState × String :=
   | "devgas" :: args =>
     let (s', out) := DevGas.step st.devgas args
     ({ st with devgas := s' }, out)
+  | "logidx" :: args =>
+    let (s', out) := LogIndex.step (LogIndex.cfgOfFacts Generated.bloomSiteArgs) st.logidx args
+    ({ st with logidx := s' }, out)
   | "oracle" :: args => (st, Oracle.step args)
   | "infl" :: args =>
     let (s', out) := Inflation.step st.infl args
